@@ -476,3 +476,166 @@ def mapCoercion : (dst src : Ty) → Bool
   | _, _ => false
 
 end Martian.Types
+
+/-! # The same type system over numerals as Go reads them (float64 rounding)
+
+`Martian.Types.check` / `filter` above decide "integral float" and "is a float"
+on the exact decimal value of a literal.  The real code goes through
+`strconv.ParseFloat`: `FilterJson` for `int` tests the ROUNDED float64 and
+writes THAT integer, an integer-syntax literal outside `int64` takes the same
+detour, and a literal beyond the largest finite float64 is no float at all.
+`Martian.TypesR` is the same model with exactly these three base cases replaced
+(`Num.goInt?`, `Num.finite64` of Martian/Json.lean); everything structural
+(arrays, typed maps, structs, assignability, `noHole`) is shared.  The two models
+agree on every value whose numerals are exactly representable
+(`Num.exact64`). -/
+namespace Martian.TypesR
+open Martian.Json Martian.Types
+
+def checkBase : Base → J → Verdict
+  | _, .null => .ok
+  | .string, .str _ | .path, .str _ | .file, .str _ => .ok
+  | .int, .num (.int v) => if Num.inInt64 v then .ok else .error
+  | .float, .num n => if n.finite64 then .ok else .error
+  | .bool, .bool _ => .ok
+  | .map, .obj _ => .ok
+  | _, _ => .error
+
+mutual
+  /-- `Type.IsValidJson`, three-valued -/
+  def check : Ty → J → Verdict
+    | .base b, v => checkBase b v
+    | .user _, v =>
+      match v with
+      | .null | .str _ => .ok
+      | _ => .alarm
+    | .arr t, v =>
+      match v with
+      | .null => .ok
+      | .arr xs => worst (xs.map (fun x => check t x))
+      | _ => .error
+    | .tmap t, v =>
+      match v with
+      | .null => .ok
+      | .obj kvs =>
+        worst (kvs.map (fun kv =>
+          (check t kv.2).max (if isDirMap t && !legalName kv.1 then .error else .ok)))
+      | _ => .error
+    | .struct _ fs, v =>
+      match v with
+      | .null => .ok
+      | .obj kvs => checkFields fs kvs
+      | _ => .error
+  def checkFields : Fields → List (Bytes × J) → Verdict
+    | .nil, _ => .ok
+    | .cons k t r, kvs =>
+      (match getKey k kvs with
+        | none => Verdict.error
+        | some v => check t v).max (checkFields r kvs)
+end
+
+def valid (t : Ty) (v : J) : Bool := check t v == .ok
+
+def filterBase : Base → J → J × FErr
+  | _, .null => (.null, .ok)
+  | .string, .str s => (.str s, .ok)
+  | .path, .str s => (.str s, .ok)
+  | .file, .str s => (.str s, .ok)
+  | .float, .num n => (.num n, if n.finite64 then .ok else .fatal)
+  | .bool, .bool b => (.bool b, .ok)
+  | .map, .obj kvs => (.obj kvs, .ok)
+  | .int, .num n =>
+    -- `int64` parse (integer syntax, in range), else the float64 detour
+    match n with
+    | .int v =>
+      if Num.inInt64 v then (.num (.int v), .ok)
+      else match (Num.int v).goInt? with
+        | some i => (.num (.int i), .soft)
+        | none => (.num (.int v), .fatal)
+    | .flt m e =>
+      match (Num.flt m e).goInt? with
+      | some i => (.num (.int i), .soft)
+      | none => (.num (.flt m e), .fatal)
+  | _, v => (v, .fatal)
+
+mutual
+  /-- `Type.FilterJson` -/
+  def filter : Ty → J → J × FErr
+    | .base b, v => filterBase b v
+    | .user _, v =>
+      match v with
+      | .null | .str _ => (v, .ok)
+      | _ => (v, .soft)
+    | .arr t, v =>
+      if !canFilter t then (v, .ok) else
+      match v with
+      | .null => (v, .ok)
+      | .arr xs =>
+        (.arr (xs.map (fun x => (filter t x).1)), worstF (xs.map (fun x => (filter t x).2)))
+      | _ => (v, .fatal)
+    | .tmap t, v =>
+      if !canFilter t then (v, .ok) else
+      match v with
+      | .null => (v, .ok)
+      | .obj kvs =>
+        (.obj (kvs.map (fun kv => (kv.1, (filter t kv.2).1))),
+         worstF (kvs.map (fun kv => (filter t kv.2).2)))
+      | _ => (v, .fatal)
+    | .struct _ fs, v =>
+      match v with
+      | .null => (v, .ok)
+      | .obj kvs => (.obj (filterFields fs kvs).1, (filterFields fs kvs).2)
+      | _ => (v, .fatal)
+  def filterFields : Fields → List (Bytes × J) → List (Bytes × J) × FErr
+    | .nil, _ => ([], .ok)
+    | .cons k t r, kvs =>
+      let rest := filterFields r kvs
+      match getKey k kvs with
+      | none => ((k, .null) :: rest.1, .fatal)
+      | some v =>
+        if canFilter t then ((k, (filter t v).1) :: rest.1, (filter t v).2.max rest.2)
+        else ((k, v) :: rest.1, rest.2)
+end
+
+/-- "The values of the declared shape" – as `Martian.Types.Shape`, a float must
+be finite in binary64. -/
+inductive Shape : Ty → J → Prop where
+  | null (t : Ty) : Shape t .null
+  | string (s : Bytes) : Shape (.base .string) (.str s)
+  | path (s : Bytes) : Shape (.base .path) (.str s)
+  | file (s : Bytes) : Shape (.base .file) (.str s)
+  | int (v : Int) : Num.inInt64 v = true → Shape (.base .int) (.num (.int v))
+  | float (n : Num) : n.finite64 = true → Shape (.base .float) (.num n)
+  | bool (b : Bool) : Shape (.base .bool) (.bool b)
+  | map (kvs : List (Bytes × J)) : Shape (.base .map) (.obj kvs)
+  | user (n s : Bytes) : Shape (.user n) (.str s)
+  | arr (t : Ty) (xs : List J) : (∀ x, x ∈ xs → Shape t x) → Shape (.arr t) (.arr xs)
+  | tmap (t : Ty) (kvs : List (Bytes × J)) :
+      (∀ kv, kv ∈ kvs → Shape t kv.2) →
+      (isDirMap t = true → ∀ kv, kv ∈ kvs → legalName kv.1 = true) →
+      Shape (.tmap t) (.obj kvs)
+  | struct (n : Bytes) (fs : Fields) (kvs : List (Bytes × J)) :
+      (∀ k t, (k, t) ∈ fs.toList → (getKey k kvs).isSome = true) →
+      (∀ k t v, (k, t) ∈ fs.toList → getKey k kvs = some v → Shape t v) →
+      Shape (.struct n fs) (.obj kvs)
+
+mutual
+  /-- `Drops r v`: `r` is `v` except that object members may have been dropped
+  (and reordered) and a numeral that is no `int64` literal may have been
+  rewritten as the integer its float64 rounding is (`Num.goInt?`). -/
+  inductive Drops : J → J → Prop where
+    | refl (v : J) : Drops v v
+    | int (n : Num) (i : Int) : n.goInt? = some i → Drops (.num (.int i)) (.num n)
+    | arr {xs' xs : List J} : DropsL xs' xs → Drops (.arr xs') (.arr xs)
+    | obj {kvs' kvs : List (Bytes × J)} : DropsO kvs' kvs → Drops (.obj kvs') (.obj kvs)
+  inductive DropsL : List J → List J → Prop where
+    | nil : DropsL [] []
+    | cons {x' x : J} {xs' xs : List J} : Drops x' x → DropsL xs' xs → DropsL (x' :: xs') (x :: xs)
+  inductive DropsO : List (Bytes × J) → List (Bytes × J) → Prop where
+    | nil (kvs : List (Bytes × J)) : DropsO [] kvs
+    | cons {k : Bytes} {v' v : J} {rest kvs : List (Bytes × J)} :
+        (k, v) ∈ kvs → Drops v' v → DropsO rest kvs → DropsO ((k, v') :: rest) kvs
+end
+
+end Martian.TypesR
+
